@@ -145,6 +145,8 @@ func typeYAML(f InField) string {
 		return "{type_id: bool}"
 	case "float":
 		return "{type_id: float}"
+	case "pattern":
+		return "{type_id: pattern}"
 	case "list_int":
 		return "{type_id: list, items: {type_id: integer}}"
 	case "list_str":
